@@ -45,6 +45,9 @@ ASSUMPTIONS = [
     "as in Part.quarter_map, and time signatures are not compared for those scores)",
     "tempo marks are global: a mark of any part stands at the tick of its own musical position; two parts that "
     "carry a mark at one musical position are only generated with equal values",
+    "a part without notes (tacet, sub-spaces modes and tempo-tacet) has no track of its own: its time and key "
+    "signatures are not looked for, its tempo marks are (they are global); scores in which only tacet parts have a "
+    "pickup, and scores without any note, are not generated",
     "track and channel numbers are free; only the partition of the notes into tracks and channels is compared",
     "pad_bar: the first time signature may stand at tick 0 (code's reading) or at the image of its position",
     "time_sig_change: checked as 'time signature in force at every measure start' = notated signature for "
@@ -724,6 +727,21 @@ def spaces(tier, seed):
                     "group (cycled); 3 policies, mode, minimum_ppq {0,7} and input {Score, list} cycled; time signatures "
                     "are not compared when the pickups of the parts differ"
                     % (len(tk), [[list(x) for x in k] for k in tk], 3 if quick else 6, len(M.TEMPO_TRIPLES))))
+    if quick:
+        tt = lambda: M.gen_tempotacet(tk, tk[:2], tk[:3], M.TEMPO_TRIPLES[:2])
+    else:
+        tt = lambda: M.gen_tempotacet(tk, tk[:4] + tk[7:9], tk[:4] + tk[7:9], M.TEMPO_TRIPLES)
+    sp.append(Space("tempo-tacet", lambda: with_configs(tt(), cfg_tempoparts), True,
+                    "scores of sub-space tempo-parts in which some but not all parts have NO notes (tacet: one rest per "
+                    "quarter, measures, time and key signatures, Tempo objects): (a) two parts, the tacet one first or "
+                    "second: %d quarter-map kinds of the tacet part x %d kinds of the sounding part x pickups per part x "
+                    "marks {all candidates in part 1, all in part 2, alternating, both phases}; (b) exactly one mark in "
+                    "the score, in the tacet part: %d kinds x tacet first/second x pickups x every candidate position; "
+                    "(c) three parts: %d triples of kinds x every non-empty proper subset of the parts tacet x pickup "
+                    "in all parts / in none x {all in part k, rotating, 3 phases}; pickup vectors in which only tacet "
+                    "parts have a pickup are not generated; flat parts or the first two in a group (cycled); 3 policies, "
+                    "mode, minimum_ppq {0,7} and input {Score, list} cycled"
+                    % ((len(tk), 2, 3, 2) if quick else (len(tk), 6, 6, len(M.TEMPO_TRIPLES)))))
     if quick:
         lt = lambda: M.gen_longtie()
         lt_bounds = "metres %s, smallest divisions with integral beats, no pickup, ends in measure 4 only at its end" % (
